@@ -361,28 +361,31 @@ def recheck_props(prop, wd):
 FACT_GROUPS = {"FactsIO": ["C01", "C02", "C03", "C04"],
                "FactsOptions": ["C05", "C06", "C07", "C08", "C09", "C10", "C11", "C12", "C13", "C14", "C15"],
                "FactsAudio": ["C16", "C17", "C18"],
-               "FactsKlatt": ["C19"]}
+               "FactsKlatt": ["C19"],
+               "FactsScripts": ["C18"]}
 
 
 def source_facts(prop, wd):
     """Regenerate SourceFacts.v from REPO (tools/source_facts.py) and re-prove the facts
     lemmas of the group this property's models depend on."""
-    group = [g for g, ps in FACT_GROUPS.items() if prop in ps]
-    if not group:
+    groups = [g for g, ps in FACT_GROUPS.items() if prop in ps]
+    if not groups:
         return {"ok": True, "lemmas": 0, "log": "", "group": None}
-    group = group[0]
+    group = "+".join(groups)
     gd = os.path.join(wd, "gen")
     os.makedirs(gd, exist_ok=True)
     p = subprocess.run([sys.executable, os.path.join(VERIF, "tools", "source_facts.py"), REPO, os.path.join(gd, "SourceFacts.v")],
                        stdout=subprocess.PIPE, stderr=subprocess.STDOUT, text=True)
     if p.returncode != 0:
         return {"ok": False, "lemmas": 0, "group": group, "log": "translator failed (a literal the models depend on is gone): " + p.stdout[-600:]}
-    src = os.path.join(COQ, "facts", group + ".v")
-    with open(src) as fh:
-        nlem = len(re.findall(r"^Lemma\s", fh.read(), flags=re.M))
-    shutil.copy(src, os.path.join(gd, group + ".v"))
+    nlem = 0
+    for g in groups:
+        src = os.path.join(COQ, "facts", g + ".v")
+        with open(src) as fh:
+            nlem += len(re.findall(r"^Lemma\s", fh.read(), flags=re.M))
+        shutil.copy(src, os.path.join(gd, g + ".v"))
     args = ["timeout", "300", "coqc"] + COQ_ARGS + ["-Q", gd, "PraatIOGen"]
-    for f in ("SourceFacts.v", group + ".v"):
+    for f in ["SourceFacts.v"] + [g + ".v" for g in groups]:
         p = subprocess.run(args + [os.path.join(gd, f)], stdout=subprocess.PIPE, stderr=subprocess.STDOUT, text=True)
         if p.returncode != 0:
             return {"ok": False, "lemmas": nlem, "group": group, "log": "%s no longer checks: %s" % (f, p.stdout[-800:])}
